@@ -227,7 +227,7 @@ PROPS = {
         stages=[dict(test="TestC07", pkg="c07", quick=(16, 25), thorough=(16, 2500), timeout=dict(quick=900, thorough=3300))],
         rule="case = 2-5 voters (delegations + restaked coins, 25% 'rich' with 2^66 of an 18-decimals token), feeds params (threshold, min/max "
              "interval, MaxCurrentFeeds 1-5, update interval 1-5) and a list of late-bound ops: votes with symbolic powers (threshold*k+-1, remaining "
-             "power +-1, 2^62/2^63-1 constants, int64-wrapping combinations, empty/duplicate/too many signals), re-votes (same total identical/redistributed, totals relative to the current lock), restake AllowedDenoms changes through real governance proposals (power drops below the lock without any hook running), genesis export/import round trips, delegate/undelegate/"
+             "power +-1, 2^62/2^63-1 constants, int64-wrapping combinations, empty/duplicate/too many signals), re-votes (same total identical/redistributed, totals relative to the current lock), restake AllowedDenoms changes through real governance proposals (power drops below the lock without any hook running), genesis export/import round trips, feeds params changed by governance mid-history (MaxCurrentFeeds 0/1/2/current+-1/5, PowerStepThreshold, Min/MaxInterval, update interval), delegate/undelegate/"
              "stake/unstake, block ends across update blocks; non-trivial = >=1 accepted re-vote changing >=2 signals AND >=1 vote whose true sum is "
              "within 1 of the voter's power or above int64; distinct = hash of case JSON",
         explanation="big.Int reference model: accepted vote => mathematical sum <= voter power (no wrap-around acceptance); after every block Vote "
@@ -271,8 +271,7 @@ PROPS = {
         stages=[dict(test="TestC18", pkg="c18", quick=(16, 14), thorough=(16, 1200), timeout=dict(quick=900, thorough=3400))],
         rule="case = genesis current group or none, small Min/MaxTransitionDuration, CreationPeriod 4-9, SigningPeriod 1-3, MaxSigningAttempt 1-3 and "
              "late-bound ops: gov MsgTransitionGroup / MsgForceTransitionGroup with exec times at min / max / just outside the window / not after block "
-             "time, a second proposal while one is pending, forced transitions naming a group that is not ACTIVE (left-over DKG group of a dropped transition in ROUND_1/2/3, stalled, fallen, expired, non-existent), DKG steps of the incoming group (honest, member stops, false complaint), hand-over "
-             "signing by all/some/none of the current group, block ends with dt crossing ExecTime before/at/after each milestone, member activation, "
+             "time, a second proposal while one is pending, forced transitions naming a group that is not ACTIVE (left-over DKG group of a dropped transition in ROUND_1/2/3, stalled, fallen, expired, non-existent), DKG steps of the incoming group (honest, member stops, false complaint), hand-over signing by all/some/none of the current group, millisecond time axis (exec times with sub-second parts, blocks landing in the same second just before / exactly at / just after ExecTime), duplicate-member proposals, block ends with dt crossing ExecTime before/at/after each milestone, member activation, "
              "user signing requests at every stage; non-trivial = a transition reached WAITING_SIGN or WAITING_EXECUTION and >=1 milestone lies within "
              "one block of the first block at/after ExecTime; distinct = hash of case JSON",
         explanation="reference state machine written from the statement: CurrentGroup changes only in a block with time >= ExecTime whose transition was "
